@@ -206,6 +206,7 @@ Fixpoint bal (h : nat) (sc : list lop) : option nat :=
   | LBorrow :: r => bal (S h) r
   | LReturn :: r => match h with 0 => None | S h' => bal h' r end
   | LReq _ :: r => bal h r
+  | LCancel _ :: r => bal h r
   | _ => None
   end.
 
@@ -257,6 +258,9 @@ Proof.
           apply Forall_upd_nth; auto; unfold bal_thread; cbn; try (unfold lrest; cbn; exact Bt).
         exists (lheld th), panics. split; [reflexivity|]. split; [|exact Ho].
         unfold lrest. cbn. fold (lrest th). rewrite Er. cbn. exact Bt.
+      * (* a request context is cancelled: nothing moves *)
+        inversion H; subst s'; clear H. split; [exact R|]. cbn. apply Forall_upd_nth; auto;
+          try (unfold bal_thread; cbn; unfold lrest; cbn; exact Bt).
     + (* LBorrowing *)
       destruct Bt as [Bt Hc]. rewrite Hc in Ho. inversion Ho; subst o. rewrite Er in Bt. cbn [bal] in Bt.
       destruct (Nat.ltb (lc s) (lcap s)); [|discriminate].
@@ -339,9 +343,13 @@ Proof.
     pose proof (Forall_nth _ _ _ _ F Ht) as [Sc St].
     pose proof (Forall_nth _ _ _ _ Hn Ht) as Nr.
     assert (Hreq : is_req o). { rewrite Forall_forall in Sc. apply Sc. eapply nth_error_In; eauto. }
-    destruct o; try contradiction. unfold lstep_thread in H. cbv zeta in H.
+    unfold lstep_thread in H. cbv zeta in H.
     destruct St as [[Epc Eh]|[Epc Eh]]; rewrite Epc in H.
-    + assert (Hfree : lc s < lcap s).
+    + destruct o; try contradiction;
+        [|inversion H; subst s'; clear H; cbn; rewrite length_upd_nth; (split; [exact Hlen|]);
+          apply Forall_upd_nth; auto; unfold no_refusal; cbn; intros Hin;
+          apply in_app_or in Hin; destruct Hin as [Hin|[Hin|[]]]; [exact (Nr Hin)|discriminate]].
+      assert (Hfree : lc s < lcap s).
       { destruct HL as [A B C D E]. rewrite <- (D R), A. unfold lholders.
         assert (sumf lheld (lthreads s) < length (lthreads s)); [|lia].
         eapply sumf_lt_len; eauto. intros y Hy. rewrite Forall_forall in F.
@@ -351,7 +359,7 @@ Proof.
       apply Forall_upd_nth; auto.
     + destruct (Nat.ltb 0 (lc s)); inversion H; subst s'; clear H; cbn; rewrite length_upd_nth;
         (split; [exact Hlen|]); apply Forall_upd_nth; auto; unfold no_refusal; cbn; intros Hin;
-        apply in_app_or in Hin; (destruct Hin as [Hin|[Hin|[]]]; [exact (Nr Hin)|destruct panics; discriminate]).
+        apply in_app_or in Hin; (destruct Hin as [Hin|[Hin|[]]]; [exact (Nr Hin)|destruct o as [| | | | |[|]|]; discriminate]).
   - unfold lstep_timer in H.
     destruct (nth_error (lthreads s) (x - length (lthreads s))) as [th|] eqn:Ht; [|discriminate].
     pose proof (Forall_nth _ _ _ _ F Ht) as [Sc [[Epc _]|[Epc _]]]; rewrite Epc in H; discriminate.
@@ -377,4 +385,41 @@ Proof.
       + cbn. rewrite map_length. split; [exact Hlen|]. apply Forall_forall.
         intros th Hin. apply in_map_iff in Hin. destruct Hin as (sc & <- & Hsc). unfold no_refusal. cbn. auto. }
   destruct H as [_ [_ H]]. rewrite Forall_forall in H. exact H.
+Qed.
+
+(* ================================================================== *)
+(* a holder's context is cancelled while it is inside: no capacity moves *)
+
+Lemma lim_ctx_cancel_l : forall s t th k,
+  nth_error (lthreads s) t = Some th -> t < length (lthreads s) -> lpcof th = LIdle ->
+  lcur th = Some (LCancel k) ->
+  lstep s t = Some (lkeep s t (ldone th (lheld th) 1)) /\
+  let s' := lkeep s t (ldone th (lheld th) 1) in
+  lc s' = lc s /\ lcap s' = lcap s /\ lacq s' = lacq s /\ lrel s' = lrel s /\ lrogue s' = lrogue s /\
+  lholders s' = lholders s /\ linbody s' = linbody s /\
+  (forall u, u <> t -> nth_error (lthreads s') u = nth_error (lthreads s) u).
+Proof.
+  intros s t th k Ht Hlt Epc Ho. split.
+  - unfold lstep. destruct (Nat.ltb_spec t (length (lthreads s))); [|lia].
+    rewrite Ht, Ho. unfold lstep_thread. rewrite Epc. reflexivity.
+  - cbn. repeat split; auto.
+    + pose proof (sumf_upd_nth lheld (lthreads s) t (ldone th (lheld th) 1) th Ht) as U.
+      unfold lholders. cbn in *. lia.
+    + pose proof (sumf_upd_nth (fun th => match lpcof th with LInBody => 1 | _ => 0 end)
+                               (lthreads s) t (ldone th (lheld th) 1) th Ht) as U.
+      unfold linbody. cbn in *. rewrite Epc in U. lia.
+    + intros u Hu. apply nth_error_upd_nth_neq. auto.
+Qed.
+
+(* history level: whatever contexts are cancelled and whenever, the permits outstanding are
+   exactly the requests whose handler has not returned yet - cancelled or not - and at most n *)
+Lemma lim_ctx_history_l : forall n scripts sched,
+  Forall (Forall is_req) scripts ->
+  let s := lexec n scripts sched in
+  lrogue s = false /\ lc s = linbody s /\ linbody s <= n.
+Proof.
+  intros n scripts sched Hs s.
+  destruct (maxconns_idle_means_zero_l n scripts sched Hs) as (R & E & _). fold s in R, E.
+  destruct (lim_cap_l n scripts sched) as (A & _). fold s in A.
+  repeat split; auto. lia.
 Qed.
